@@ -7,6 +7,12 @@ trace tie  : the real analog_tjm_1 / analog_tjm_2 run with every collaborator in
 value tie  : real `has_scheduled_jump` and `apply_scheduled_jumps` (which list positions are contracted, observed through
              the `oe` name of the scheduled_jumps module) vs Model.SJump, on grid times, perturbed times, far times
              (D17) and tolerance-straddling times.
+localop    : (extension, `localop_common.py`) what the applied operation does to the state: the real `apply_scheduled_jumps` (one-site
+             and adjacent two-site asymmetric user matrices, d = 2 and 3, L = 2..5, random entangled chains), the jump branch of the
+             real `stochastic_process` (forced draw and choice; one-site, adjacent, long-range pair with explicit factors) and
+             `apply_single_qubit_gate`: dense vector after = embedded operator · dense vector before, renormalised where the code
+             renormalises, to 1e-10; value ties of every contraction, of `merge_mps_tensors`, of the merged contraction, of the SVD
+             input of `split_mps_tensor` and of `to_vec()` after the contraction against `Model/LocalOp.lean`.
 oracle     : `simulator.run` with `NoiseModel(scheduled_jumps=…)` on 2–3 site chains vs exact dense evolution with the
              operators applied once on arrival at t_m and renormalised; columns before t_m must equal the run without
              the jump.  One-site and adjacent two-site operators, library names and user matrices, orders 1 and 2,
@@ -21,6 +27,7 @@ from fractions import Fraction
 import numpy as np
 
 import implbase as ib
+import localop_common as lo
 import pipeline_common as pc
 from mqt.yaqs.core.methods import scheduled_jumps as sj_mod
 
@@ -33,6 +40,14 @@ def gen(rng, tier):
     n_trace = {"quick": 26, "thorough": 160, "search": 30}.get(tier, 26)
     n_match = {"quick": 140, "thorough": 1500, "search": 60}.get(tier, 140)
     n_sim = {"quick": 36, "thorough": 400, "search": 120}.get(tier, 44)
+    # extension: local operator application = dense operator (cheap, so first; its own PRNG so that the seeds of the other
+    # kinds are what they were)
+    n_local = {"quick": 60, "thorough": 600, "search": 150}.get(tier, 60)
+    lrng = random.Random("localop:" + str(rng.getstate()[1][:3]))
+    for what in ("sj1", "sj2", "lot1", "lot2", "lotf", "gate"):
+        yield {"kind": "localop", "sub": lrng.randrange(1 << 30), "what": what}
+    for _ in range(n_local):
+        yield {"kind": "localop", "sub": lrng.randrange(1 << 30)}
     if tier == "search":      # oracles are what matters
         for _ in range(n_sim):
             yield {"kind": "simrun", "sub": rng.randrange(1 << 30)}
@@ -440,6 +455,8 @@ def _run(inp):
         return run_far(inp)
     if k == "simrun":
         return run_simrun(inp)
+    if k == "localop":
+        return lo.run_localop(inp)
     raise ValueError(k)
 
 
@@ -448,6 +465,7 @@ def spec():
     for L in (2, 3):
         d = float(np.abs(pc.MPO.ising(L, 1.0, 0.7).to_matrix() - pc.ising_dense(L, 1.0, 0.7)).max())
         out.append({"name": f"dense Ising reference equals MPO.ising({L}).to_matrix()", "ok": d < 1e-12, "worst": d})
+    out += lo.spec()
     return out
 
 
@@ -457,9 +475,14 @@ if __name__ == "__main__":
                  "times, index 0, off-grid index; times written as times[m], m*dt or a decimal literal); match: grid, far "
                  "(1e5..1e7 steps), tolerance-straddling, 1-ulp perturbed and random times; simrun: L=2,3, orders 1/2, "
                  "library and user operators on 1 or 2 adjacent sites.  distinct = distinct signature (backend, n, sample, "
-                 "index set, …); non-trivial = a scheduled operator is actually applied / changes a value by > 1e-3",
+                 "index set, …); non-trivial = a scheduled operator is actually applied / changes a value by > 1e-3.  "
+                 "localop: random entangled chains with dyadic tensor entries, L=2..5, d=2,3, bond caps 1..9, asymmetric "
+                 "non-Hermitian operators; apply_scheduled_jumps (1 site / adjacent pair), forced jump branch of "
+                 "stochastic_process (1 site / adjacent pair / long-range factors), apply_single_qubit_gate",
             trusted_base=["numpy/scipy dense evolution (expm) as the reference of the oracle",
-                          "object identity decides which MPS is the propagated state and which the copy"],
+                          "object identity decides which MPS is the propagated state and which the copy",
+                          "localop: numpy kron / einsum dense reference built from the tensors (site 0 most significant), qiskit "
+                          "Operator for the gate matrix"],
             assumptions=["jump and grid times handed to the model are the binary64 values the implementation saw",
                          "the oracle runs without noise processes (deterministic); with processes only the event trace is tied"],
             spec=spec, budget_s={"quick": 100, "thorough": 1100, "search": 200}.get(pc.tier_from_argv(), 100))
